@@ -87,10 +87,13 @@ def verdict_of(exc):
 
 def unit_case(ctx, events, body):
     """events: list of 'ok' | int | 'broken' | 'cancelled'; body: None or int (exception raised in the with-body)"""
+    if ctx.notes.get("unit_hangs", 0) >= 3:
+        return          # three hangs are evidence enough; each costs a 10 s watchdog
     from bio2zarr import core
     futs = [make_future(e) for e in events]
     pending = [make_future("pending") for _ in range(2)]
     exc = None
+    watchdog(10)
     try:
         with forced_order(futs):
             pwm = core.ParallelWorkManager(0)
@@ -111,8 +114,16 @@ def unit_case(ctx, events, body):
                     pwm.completed = True
     except Exception as e:  # noqa: BLE001
         exc = e
+    finally:
+        signal.alarm(0)
     got = verdict_of(exc)
     inp = {"events": events, "body_exception": body}
+    if isinstance(exc, TimeoutError):
+        ctx.notes["unit_hangs"] = ctx.notes.get("unit_hangs", 0) + 1
+        ctx.case(("unit", tuple(events), body), True)
+        ctx.violate(f"events {events} (two more futures still pending, as after a broken pool): the manager did not return within 10 s — it "
+                    f"waits for futures that can no longer complete", inp, "error within bounded time", "hang")
+        return
     nontrivial = body is not None or any(e != "ok" for e in events)
     ctx.case(("unit", tuple(events), body), nontrivial)
     if ctx.driver_ok:
@@ -141,7 +152,7 @@ def watchdog(seconds):
     signal.alarm(seconds)
 
 
-def pool_case(ctx, outcomes, workers, work, rng):
+def pool_case(ctx, outcomes, workers, work, rng, delays=None):
     """real ProcessPoolExecutor through ParallelWorkManager"""
     from bio2zarr import core
     import c14_tasks
@@ -155,7 +166,8 @@ def pool_case(ctx, outcomes, workers, work, rng):
         with core.ParallelWorkManager(workers) as pwm:
             for i, o in enumerate(outcomes):
                 kind = o if o in ("ok", "die") else "raise"
-                pwm.submit(c14_tasks.task, kind, o if kind == "raise" else i, str(marker), rng.choice([0, 0.01, 0.05]))
+                pwm.submit(c14_tasks.task, kind, o if kind == "raise" else i, str(marker),
+                           delays[i] if delays else rng.choice([0, 0.01, 0.05]))
     except BaseException as e:  # noqa: BLE001
         exc = e
     finally:
@@ -167,7 +179,12 @@ def pool_case(ctx, outcomes, workers, work, rng):
     ctx.case(("pool", tuple(outcomes), workers), bad)
     ctx.count(f"pool_w{workers}_{'bad' if bad else 'ok'}")
     if isinstance(exc, TimeoutError):
-        ctx.violate(f"outcomes {outcomes} with {workers} workers: command hung (> 60 s)", inp, "error within bounded time", "hang")
+        ctx.violate(f"outcomes {outcomes} with {workers} workers (delays {delays}): command hung (> 60 s)", inp, "error within bounded time", "hang")
+        try:   # best effort: do not leave the wedged pool's processes behind
+            for pr in list(getattr(pwm.executor, "_processes", {}).values()):
+                pr.kill()
+        except Exception:  # noqa: BLE001
+            pass
         return
     raised = {o for o in outcomes if o not in ("ok", "die")}
     died = "die" in outcomes
@@ -287,6 +304,15 @@ def run(ctx):
             pools = pools[:10] + [(["ok"] * 4, 2), (["ok", "ok", 6], 0)]
         for o, w in pools:
             pool_case(ctx, o, w, work, rng)
+        # a task raises while many are still queued, and shortly afterwards another worker dies: cancelled futures of a
+        # broken pool are never notified, so anything that waits for *all* futures hangs
+        for w in ((1, 2, 3) if ctx.thorough else (2,)):
+            n = 4 * w + 4
+            o = [5] + ["die"] + ["ok"] * (n - 2)
+            d = [0.0, 0.4] + [0.8] * (n - 2)
+            pool_case(ctx, o, w, work, rng, delays=d)
+            o2 = ["ok", "die", 6] + ["ok"] * (n - 3)
+            pool_case(ctx, o2, w, work, rng, delays=[0.3, 0.1, 0.0] + [0.5] * (n - 3))
         pipeline_cases(ctx, work, rng)
         ctx.traces = ctx.evaluations
     finally:
